@@ -95,21 +95,30 @@ def coq_sync():
 def coq_make(targets=None, timeout=1500, jobs=NCPU):
     """make the given .vo targets (relative to coq/), or everything.
     Returns (ok: dict target->bool, log)."""
+    # The global lock only covers the (cheap) regeneration of _CoqProject / Makefile / dependency file, so
+    # that checks of different properties do not queue behind one long proof build; the builds themselves
+    # run concurrently on disjoint targets (shared Base/*.vo are up to date and not rebuilt).
     with CoqLock():
         coq_sync()
-        tg = list(targets) if targets else []
-        rc, out = sh(["make", "-k", "-j%d" % jobs] + tg, cwd=COQ, timeout=timeout)
-        ok = {}
-        for t in (tg or [s + "o" for s in coq_sources()]):
-            vo = os.path.join(COQ, t)
-            src = vo[:-1]
-            ok[t] = os.path.exists(vo) and os.path.exists(src) and os.path.getmtime(vo) >= os.path.getmtime(src)
-        if rc != 0:
-            # a target that failed has no fresh .vo; make -k keeps going for the others
-            for t in ok:
-                if re.search(r"(?m)^(File \"\./%s\"|make.*\*\*\* \[.*%s)" % (re.escape(t[:-1]), re.escape(t)), out):
-                    ok[t] = False
-        return ok, out
+        sh(["make", ".Makefile.d"], cwd=COQ, timeout=300)
+    tg = list(targets) if targets else []
+    rc, out = sh(["make", "-k", "-j%d" % jobs] + tg, cwd=COQ, timeout=timeout)
+    if rc != 0 and re.search(r"Makefile\.d|No rule to make target|missing separator", out):
+        # lost a race with another check regenerating the dependency file: once more, alone
+        with CoqLock():
+            coq_sync()
+            rc, out = sh(["make", "-k", "-j%d" % jobs] + tg, cwd=COQ, timeout=timeout)
+    ok = {}
+    for t in (tg or [s + "o" for s in coq_sources()]):
+        vo = os.path.join(COQ, t)
+        src = vo[:-1]
+        ok[t] = os.path.exists(vo) and os.path.exists(src) and os.path.getmtime(vo) >= os.path.getmtime(src)
+    if rc != 0:
+        # a target that failed has no fresh .vo; make -k keeps going for the others
+        for t in ok:
+            if re.search(r"(?m)^(File \"\./%s\"|make.*\*\*\* \[.*%s)" % (re.escape(t[:-1]), re.escape(t)), out):
+                ok[t] = False
+    return ok, out
 
 
 def coqc_file(path, timeout=900, cwd=None):
